@@ -29,6 +29,8 @@ pub enum Ty {
     Any,                     // the payload type of a bare `None`: unifies with everything
     /// `F: FnMut(&mut T) -> U` seen as a stateless function `T → M (U × T)` (the argument handed back)
     FnMut1(Box<Ty>, Box<Ty>),
+    /// `F: FnOnce(T) -> U` / `Fn(T) -> U` over a by-value argument: a function `T → M U`
+    FnOnce1(Box<Ty>, Box<Ty>),
     /// `BinaryHeap<T>` by its contract: a bag of elements, `pop`/`peek` deliver a greatest one by `T::cmp`
     Heap(Box<Ty>),
 }
@@ -123,6 +125,7 @@ impl World {
             Ty::Cursor | Ty::ExtW => "γ".into(),
             Ty::Any => "_".into(),
             Ty::FnMut1(a, r) => format!("({} → M ({} × {}))", self.lean_ty(a)?, self.lean_ty(r)?, self.lean_ty(a)?),
+            Ty::FnOnce1(a, r) => format!("({} → M ({}))", self.lean_ty(a)?, self.lean_ty(r)?),
             Ty::Tuple(ts) => {
                 let v: R<Vec<String>> = ts.iter().map(|t| self.lean_ty(t)).collect();
                 format!("({})", v?.join(" × "))
@@ -529,6 +532,7 @@ impl<'w> Ctx<'w> {
             (x, Ty::Any) => Ok(x.clone()),
             (x, y) if x == y => Ok(a.clone()),
             (Ty::Opt(x), Ty::Opt(y)) => Ok(Ty::Opt(Box::new(self.unify(x, y)?))),
+            (Ty::Bound(x), Ty::Bound(y)) => Ok(Ty::Bound(Box::new(self.unify(x, y)?))),
             (x, y) => Err(format!("type mismatch {:?} vs {:?}", x, y)),
         }
     }
